@@ -70,6 +70,16 @@ def main():
     t("max(B,256)", R("self.row += self.block_size;\n        }\n        best",
                       "self.row += self.block_size.max(256);\n        }\n        best"), "parse")
     t("extra stmt", R("let end = (self.row", "self.row += 0; let end = (self.row", 1), "parse")
+    # the repair proposed for finding F-scan-ovf: same skeleton, constant row_add_saturating flips (a "diff" of the
+    # constants only); a partial / different repair is not accepted
+    sat = lambda s: s.replace("(self.row + self.block_size).min(sequence_rows)",
+                              "self.row.saturating_add(self.block_size).min(sequence_rows)") \
+        .replace("self.row += self.block_size;", "self.row = self.row.saturating_add(self.block_size);")
+    t("saturating_add x4", sat, "diff")
+    t("saturating_add x1", R("self.row += self.block_size;", "self.row = self.row.saturating_add(self.block_size);", 1), "parse")
+    t("wrapping_add", R("self.row += self.block_size;", "self.row = self.row.wrapping_add(self.block_size);", 2), "parse")
+    t("checked_add unwrap", R("(self.row + self.block_size).min(sequence_rows)",
+                              "self.row.checked_add(self.block_size).unwrap().min(sequence_rows)", 2), "parse")
     print("FAILED: %s" % bad if bad else "all as expected")
     return 1 if bad else 0
 
